@@ -34,6 +34,7 @@ type sysRun struct {
 	symT    byte // a symbolic topic byte
 	connErr error
 	presetIDs bool
+	direct    bool
 }
 
 func (s *sysRun) submit(r *sysReq) {
@@ -80,6 +81,10 @@ func sysStart(kinds []int, nreq int, budget int) *sysRun {
 	verifSetRand(100)
 	rc := &RetryClient{}
 	rc.OnError = func(err error) { s.errs = append(s.errs, err) }
+	if verifParam("directq0", 0) == 1 {
+		rc.DirectlyPublishQoS0 = verifChoice("directq0", 2) == 1 // QoS 0 messages bypass the queue while connected
+		s.direct = rc.DirectlyPublishQoS0
+	}
 	unit := time.Second
 	if !verifSymbolic() {
 		unit = 10 * time.Millisecond // native replay: scaled durations
@@ -100,6 +105,11 @@ func sysStart(kinds []int, nreq int, budget int) *sysRun {
 // run: submit `before` requests, Connect, then the rest (optionally pausing until the system is idle).
 func (s *sysRun) run() {
 	nb := verifChoice("nbefore", len(s.reqs)+1)
+	if s.direct {
+		// DirectlyPublishQoS0: requests are submitted once connected (a direct QoS 0 publish before the first
+		// SetClient dereferences a nil client -- observed, outside every property's statement)
+		verifAssume(nb == 0)
+	}
 	for i := 0; i < nb; i++ {
 		s.reqs[i].before = true
 		s.submit(&s.reqs[i])
@@ -117,6 +127,22 @@ func (s *sysRun) run() {
 	}
 	_ = ccancel
 	for i := nb; i < len(s.reqs); i++ {
+		last := i == len(s.reqs)-1
+		if last && verifParam("idlecut", 0) == 1 {
+			// the broker drops the connection while the client is idle (nothing in flight, nothing queued)
+			verifPause()
+			s.b.cutIdle()
+		}
+		if last && verifParam("anypoint", 0) == 1 {
+			// the last request comes from another application goroutine at an arbitrary scheduling point,
+			// e.g. exactly between the installation of a freshly dialled client and its CONNECT
+			r := &s.reqs[i]
+			go func() {
+				verifPauseAny()
+				s.submit(r)
+			}()
+			continue
+		}
 		if verifChoice("pause", 2) == 1 {
 			verifPause()
 		}
@@ -389,8 +415,11 @@ func VerifH_SYS_C02() {
 }
 func VerifH_SYS_C03() {
 	kinds := []int{rkPub0, rkPub1, rkPub2, rkSub}
-	if verifParam("c03kinds", 0) == 1 {
+	switch verifParam("c03kinds", 0) {
+	case 1:
 		kinds = []int{rkPub1, rkSub} // the narrow variant used with session loss (re-subscription vs pending requests)
+	case 2:
+		kinds = []int{rkPub1} // QoS 1 publishes only (any-point submission variant)
 	}
 	sysScenario(kinds, "C03")
 }
